@@ -1,4 +1,4 @@
 """Spec functions: pure Python written from the property statements and the public rules they cite,
 never by calling or copying the code under verification.  They are inside the pyvc subset, so they
 are both executable natively (independent reference implementation) and symbolically evaluable."""
-from . import secid, ofxtypes, ofxdt, header, aggregate, groom, shortcuts, client, render
+from . import secid, ofxtypes, ofxdt, header, aggregate, groom, shortcuts, client, render, ofxget
